@@ -259,11 +259,13 @@ def rule_po2_product(rep, repo, tier):
     rep.check(F(mxo) >= F(mx1) + F(mx2), "R10", unit,
               "product-max-exponent-too-small:%s:%s" % (capped, mixed),
               "%s: operand exponents reach %s and %s, the product type "
-              "reports max exponent %s" % (cfg, mx1, mx2, mxo), instance=cfg)
+              "reports max exponent %s" % (cfg, mx1, mx2, mxo), instance=cfg,
+              observed="max exponent %s" % mxo)
     rep.check(F(mno) >= F(mn1) + F(mn2), "R10", unit,
               "product-min-exponent-too-large:%s:%s" % (capped, mixed),
               "%s: operand exponents reach -%s and -%s, the product type "
-              "reports min exponent -%s" % (cfg, mn1, mn2, mno), instance=cfg)
+              "reports min exponent -%s" % (cfg, mn1, mn2, mno), instance=cfg,
+              observed="min exponent -%s" % mno)
   if n < 100:
     raise AnalysisError("instance-count only %d po2 x po2 pairs" % n)
 
@@ -373,7 +375,8 @@ def run(rep, repo, tier):
                 "widths-not-commutative",
                 "%s gives bits=%s int=%s, the swapped call gives bits=%s "
                 "int=%s" % (cfg, show(bits), show(ib), show(b2), show(i2)),
-                instance=cfg)
+                instance=cfg, observed="bits=%s int=%s / swapped bits=%s "
+                "int=%s" % (show(bits), show(ib), show(b2), show(i2)))
     impl = pe2.call(pe2.getattr(m, "implemented_as"), [], {})
     multi = lambda k: k.startswith("fixed") or k.startswith("po2")
     deps_b = {a[1] for a in bits.atoms() if a[0] == "sym"}
